@@ -26,6 +26,8 @@ enum Call {
     Rules(Vec<(&'static str, i128)>),
     Func(&'static str),
     Funcs(Vec<&'static str>),
+    /// a batch handed over as a filtering iterator (its size hint has no lower bound)
+    RulesIter(Vec<(&'static str, i128)>),
     /// the same registrations with functions that declare themselves non-cacheable
     FuncNc(&'static str),
     FuncsNc(Vec<&'static str>),
@@ -44,6 +46,7 @@ fn alphabet() -> Vec<Call> {
         Call::Rules(vec![("C", 6), ("C", 7)]),
         Call::Rules(vec![]),
         Call::Rules(vec![("D", 8), ("E", 9)]),
+        Call::RulesIter(vec![("F", 23), ("A", 24), ("G", 25)]),
         Call::Func("f"),
         Call::Func("g"),
         Call::Func("if"),
@@ -122,7 +125,7 @@ impl Model {
     fn apply(&mut self, c: &Call, next_fn_id: &mut i128) -> Result<(), Refusal> {
         match c {
             Call::Rule(n, id) => self.add_rule(n, *id),
-            Call::Rules(v) => {
+            Call::Rules(v) | Call::RulesIter(v) => {
                 for (n, id) in v {
                     self.add_rule(n, *id)?;
                 }
@@ -171,6 +174,7 @@ fn apply_real(b: Builder, c: &Call, next_fn_id: &mut i128) -> Result<Builder, re
     match c {
         Call::Rule(n, id) => b.with_rule(rule(n, *id)),
         Call::Rules(v) => b.with_rules(v.iter().map(|(n, id)| rule(n, *id)).collect::<Vec<_>>()),
+        Call::RulesIter(v) => b.with_rules(v.iter().filter(|(n, _)| !n.is_empty()).map(|(n, id)| rule(n, *id))),
         Call::Func(n) => {
             *next_fn_id += 1;
             b.with_function(func(n, *next_fn_id))
@@ -733,9 +737,18 @@ pub fn run(tier: Tier) -> i32 {
             (RV::List(vec![d(10, 1)]), RV::List(vec![d(100, 2)])),
             (RV::map(&[("k", RV::float(0.0))]), RV::map(&[("k", RV::float(-0.0))])),
             (RV::Int(1), RV::Int(1)),
+            // containers replaced by containers: the later registration replaces the value as a whole
+            (RV::map(&[("be", RV::Int(21)), ("nl", RV::Int(6))]), RV::map(&[("nl", RV::Int(9))])),
+            (RV::map(&[("nl", RV::Int(9))]), RV::map(&[("be", RV::Int(21)), ("nl", RV::Int(6))])),
+            (RV::map(&[("a", RV::map(&[("x", RV::Int(1))]))]), RV::map(&[("a", RV::map(&[("y", RV::Int(2))]))])),
+            (RV::List(vec![RV::Int(1), RV::Int(2), RV::Int(3)]), RV::List(vec![RV::Int(9)])),
+            (RV::map(&[("k", RV::Int(1))]), RV::map(&[])),
+            (RV::map(&[("k", RV::Int(1))]), RV::None),
+            (RV::Int(5), RV::None),
+            (RV::None, RV::map(&[("k", RV::Int(1))])),
         ];
         for (old, new) in &pairs {
-            for route in 0..4 {
+            for route in 0..6 {
                 acc.count("executions", 1);
                 let built = catch(|| {
                     let mut b = ruleset().with_rule(Rule::new("sym", BTreeMap::new(), Expr::symbol("z"))).map_err(|e| e.to_string())?;
@@ -749,7 +762,20 @@ pub fn run(tier: Tier) -> i32 {
                         0 => b.with_symbol("z", old.to_value()).with_symbol("z", new.to_value()),
                         1 => b.with_symbol("z", old.to_value()).with_symbols(batch(new)).map_err(|e| e.to_string())?,
                         2 => b.with_symbols(batch(old)).map_err(|e| e.to_string())?.with_symbol("z", new.to_value()),
-                        _ => b.with_symbols(batch(old)).map_err(|e| e.to_string())?.with_symbols(batch(new)).map_err(|e| e.to_string())?,
+                        3 => b.with_symbols(batch(old)).map_err(|e| e.to_string())?.with_symbols(batch(new)).map_err(|e| e.to_string())?,
+                        // the later table is strictly larger / strictly smaller than what is there
+                        4 => {
+                            let mut big = batch(new);
+                            big.append((0..5).map(|i| (format!("extra{i}"), Value::Int(i))));
+                            b.with_symbol("z", old.to_value()).with_symbols(big).map_err(|e| e.to_string())?
+                        }
+                        _ => {
+                            let mut big = batch(old);
+                            big.append((0..5).map(|i| (format!("extra{i}"), Value::Int(i))));
+                            let mut small = Symbols::default();
+                            small.append([("z", new.to_value())]);
+                            b.with_symbols(big).map_err(|e| e.to_string())?.with_symbols(small).map_err(|e| e.to_string())?
+                        }
                     };
                     let rs = b.build();
                     let out = block_on(rs.evaluate_value(&Value::None))?.map_err(|e| e.to_string())?;
